@@ -80,6 +80,17 @@ fn factory_seeds<const A: u8>(t: Tier) -> Vec<Seed> {
             }
         }
     }
+    // (coverage audit) the rANS container starts with a 256 x u32 frequency table, and the engine mutates only the
+    // first 96 bytes of a seed that long: a payload over the symbols 1..=3 puts the frequencies of the symbols the
+    // stream actually USES inside that window (zeroed / maximised frequency of a symbol that is then decoded)
+    if A == 4 {
+        let p: &[u8] = &[1, 2, 3, 1, 2, 3, 1, 1, 2, 1];
+        if let Ok(c) = CompressorFactory::create(algo(A), Some(p)) {
+            if let Ok(b) = c.compress(p) {
+                v.push(seed("Rans[trained on low symbols](low symbols)", b, 0));
+            }
+        }
+    }
     v
 }
 
